@@ -5,7 +5,9 @@
              "events":[{"ts","kind":"Plugin"|"Unplug"|"Recompute","sess"}]   (processing order),
              "full":[[session ids fully charged when post_charging_update runs] per period],
              "choices":[index into the free list, per random.choice call],
-             "ledger":null|{…} (see `runLoopLedger`), "sim":null|{…} (see `runLoopSim`)}
+             "ledger":null|{…} (see `runLoopLedger`), "sim":null|{…} (see `runLoopSim`),
+             "simreal":null|{…} (see `runLoopSimReal`: the full simulator with the package's own algorithms, any
+                                 network, crash + second run(); takes NOTHING from "full" / "events")}
   answer  : {"err":null|name, "steps":[{"kind":"ev"|"post","snap":snapshot after the step}], "final":snapshot,
              "arrivals":[id…], "wf":bool, "horizon":n}
   The steps executed are exactly `simSteps full 0 n events` folded with `Net.step`.
